@@ -730,7 +730,7 @@ func init() {
 		}
 		return o
 	})
-	runners["C04"] = histRunner("C04", "c04_run", false, 250, 3000, inbound)
+	runners["C04"] = histRunner("C04", "c04_run_full", false, 250, 3000, inbound)
 	runners["C05"] = histRunner("C05", "c05_run_full", false, 250, 3000, func(r *rng, i int) seqOpts {
 		o := outbound(r, i)
 		if r.chance(1, 8) {
